@@ -552,3 +552,23 @@ Example indexes_nonvacuous :
   (oget 10 (by_denom s), oget 501 (by_erc s), oget 21 (alias s), oget 13 (alias s), oget 11 (alias s), oget 20 (by_denom s), oget 30 (by_denom s))
   = (Some (500, 10), None, None, Some 10, None, None, None).
 Proof. vm_compute. reflexivity. Qed.
+
+(* ======================================================================================================= *)
+(** * PART C: a token that signals a failed transfer by returning false (or nothing) cannot unbalance the books *)
+Lemma lrun_books f o s s' : lrun f o s = Some s' -> l_esc s' - l_sup s' = l_esc s - l_sup s.
+Proof.
+  destruct o; cbn [lrun]; intros H.
+  - destruct (transfer_accepted f (x <=? lget a (l_tok s))); [|discriminate]. injection H as <-. cbn. lia.
+  - destruct ((x <=? lget a (l_coin s)) && transfer_accepted f (x <=? l_esc s)); [|discriminate]. injection H as <-. cbn. lia.
+Qed.
+Theorem legacy_books f ops : forall s, l_esc (lsteps f s ops) - l_sup (lsteps f s ops) = l_esc s - l_sup s.
+Proof.
+  induction ops as [|o ops IH]; intros s; cbn [lsteps fold_left]; [reflexivity|].
+  fold (lsteps f (fst (lstep f s o)) ops). rewrite IH. unfold lstep. destruct (lrun f o s) eqn:E; cbn [fst]; [|reflexivity].
+  eapply lrun_books; eassumption.
+Qed.
+(* a conversion whose underlying transfer does not happen is refused, whatever way the token signals it *)
+Theorem legacy_failed_transfer_refused f a r x s : lget a (l_tok s) < x -> snd (lstep f s (LConvertERC20 a r x)) = false.
+Proof.
+  intros H. unfold lstep. cbn [lrun]. destruct (Z.leb_spec x (lget a (l_tok s))); [lia|]. destruct f; reflexivity.
+Qed.
